@@ -10,7 +10,7 @@ namespace LMV.Dist
 variable {R : Nat} {syms : List Nat} {bg : List Rat} {m : List (List (Option Rat))} {d : Dist Rat}
 
 /-- no mass below `min_score`: the tail is constant there -/
-theorem tail_below_min (hyp : Hyp R syms bg m) (F : Facts R syms bg m d) {k : Int} (hk : k ≤ d.minScore) :
+theorem tail_below_min (_hyp : Hyp R syms bg m) (F : Facts R syms bg m d) {k : Int} (hk : k ≤ d.minScore) :
     prob syms bg m.length (dGe d.data k) = prob syms bg m.length (dGe d.data d.minScore) := by
   -- natural indices first
   have hnat : ∀ n j : Nat, (j : Int) + n = d.minScore →
